@@ -10,7 +10,7 @@ Import ListNotations.
 Open Scope Z_scope.
 Ltac Zify.zify_post_hook ::= Z.div_mod_to_equations.
 
-Lemma adds_false ops : adds false ops = [].
+Lemma adds_false drs ops : adds false drs ops = [].
 Proof. induction ops as [|o ops IH]; [reflexivity|]. rewrite adds_cons, IH. destruct o; reflexivity. Qed.
 
 (* bands without AddChannel keep their table shape under every history *)
@@ -80,7 +80,7 @@ Definition std_ch := mkChannel 868100000 0 5 true false.
 Definition cus_ch (en : bool) := mkChannel 867100000 0 5 en true.
 Definition big_state (k : nat) : st :=
   let u := repeat std_ch 3 ++ repeat (cus_ch true) k ++ [cus_ch false] ++ repeat (cus_ch true) 2 in
-  mkSt true 0 5 u u [].
+  mkSt true 0 5 u u [] [0; 1; 2; 3; 4; 5; 6; 7].
 
 Theorem encodable_refuted_129 :
   exists s dev pls, zlen (up s) = 133 /\ in_range 133 dev = true /\
